@@ -21,6 +21,10 @@ def copy_repo(dst):
 
 def build_demo(root, demo, out, extra):
     srcs = sorted(os.path.join(root, 'src', f) for f in os.listdir(os.path.join(root, 'src')) if f.endswith('.c'))
+    if '--freestanding-m32' in extra:      # this image has no 32-bit libc: freestanding static i386 program with the shim headers of harness/ilp32
+        cmd = ['gcc', '-m32', '-O1', '-std=gnu11', '-ffreestanding', '-fno-builtin', '-nostdlib', '-static', '-fno-stack-protector', '-DNDEBUG', '-DPOLYSEED_STATIC',
+               '-isystem', os.path.join(VERIF, 'harness', 'ilp32', 'include'), '-I', os.path.join(root, 'include')] + srcs + [demo, '-o', out]
+        return sh(cmd)
     cc = 'clang' if '--clang' in extra else 'gcc'
     extra = [e for e in extra if e != '--clang']
     cmd = [cc, '-g', '-O1', '-std=gnu11', '-DPOLYSEED_STATIC', '-I', os.path.join(root, 'include')] + extra + srcs + [demo, '-o', out, '-lutf8proc', '-lpthread']      # flags in `extra` come later and override -O1
@@ -33,6 +37,8 @@ def demo_flags(demo_src):
     lines = [l for l in head.splitlines() if re.search(r'\b(gcc|clang|cc)\b', l) and ('demo' in l or 'src/' in l)]
     cmd = ' '.join(lines) if lines else head
     extra = []
+    if '-m32' in cmd and '-nostdlib' in cmd:
+        return ['--freestanding-m32']
     if re.search(r'(^|\s|\*)clang\b', cmd) and not re.search(r'(^|\s|\*)gcc\b', cmd):
         extra.append('--clang')
     m = re.search(r'-fsanitize=([a-z,]+)', cmd)
